@@ -175,20 +175,19 @@ def replay_race(name, nthreads, trace):
     ths = [threading.Thread(target=worker, args=(t,), daemon=True) for t in range(nthreads)]
     for t in ths:
         t.start()
-    steps = []
     lastline = {}
     for t, pc, kind, ln in trace:
+        if not gates[t].is_set():
+            # the thread's first event (with or without a source line of its own): it makes its call now and runs up to its
+            # first traced line - or through, if it meets no traced code
+            gates[t].set()
+            sched.wait_parked(t)
         # several events of one source line are one traced line: executed once, at the first of them
         if ln and lastline.get(t) != ln:
-            steps.append((t, ln))
+            sched.advance_to(t, ln, limit=12)
+            sched.step(t)
         if ln:
             lastline[t] = ln
-    for t, ln in steps:
-        if not gates[t].is_set():
-            gates[t].set()
-            sched.wait_parked(t)            # parks at its first traced line - or runs through if it meets no traced code
-        sched.advance_to(t, ln, limit=12)
-        sched.step(t)
     for g in gates:
         g.set()
     # the thread the schedule ends in finishes its call first, the others stay where the schedule left them (unless it
